@@ -49,6 +49,14 @@ READS = RP_CONTRACTS[2:]
 PXC = 'pexpect.pxssh.pxssh.'
 
 PROPS = {
+    'C12': {
+        'contracts': ['pexpect.run.run'],
+        'assumptions': [
+            'the child is seen through oracles in force only while run() is verified: expect() returns any index of the pattern list or raises the unlisted EOF / TIMEOUT, with the stream effects proved for it under C01 / C04 (text match: before + after + pending == pending + received; EOF: before == all pending, cleared; TIMEOUT: nothing consumed); close() records the real exit status (C09/C10); send() and callbacks are counted',
+            'event tables of up to two entries (list) / one entry (dict): the loop body treats each event by its own index, so the per-event obligations do not depend on the table length',
+            'callbacks may return a string, something true or something false; their own behaviour is arbitrary',
+        ],
+    },
     'C17': {
         'contracts': [PXC + 'login', (PXC + 'set_unique_prompt', 'verify'), PXC + 'prompt'],
         'assumptions': [
